@@ -371,6 +371,10 @@ func parseDoc(text string) (*ast.Document, error) {
 // call invokes the entry point. It returns false when the library panicked.
 func (r *run) call() bool {
 	text := reqText(r.s.Req, r.d)
+	opName := ""
+	if text == r.d.Text {
+		opName = r.d.OpName
+	}
 	root := map[string]interface{}{rootKey: r}
 	var ctx context.Context
 	if !r.s.CtxNil {
@@ -380,7 +384,7 @@ func (r *run) call() bool {
 	panicked := r.c.Guard("panic", r.detail(nil), func() {
 		switch r.s.Entry {
 		case "Subscribe":
-			r.ch = graphql.Subscribe(graphql.Params{Schema: theSchema, RequestString: text, RootObject: root, VariableValues: r.d.Vars, Context: ctx})
+			r.ch = graphql.Subscribe(graphql.Params{Schema: theSchema, RequestString: text, OperationName: opName, RootObject: root, VariableValues: r.d.Vars, Context: ctx})
 		default:
 			doc, err := parseDoc(text)
 			if err != nil {
@@ -390,7 +394,7 @@ func (r *run) call() bool {
 			if vr := graphql.ValidateDocument(&theSchema, doc, nil); !vr.IsValid {
 				panic("c15 harness: document is not valid")
 			}
-			r.ch = graphql.ExecuteSubscription(graphql.ExecuteParams{Schema: theSchema, AST: doc, Root: root, Args: r.d.Vars, Context: ctx})
+			r.ch = graphql.ExecuteSubscription(graphql.ExecuteParams{Schema: theSchema, AST: doc, OperationName: opName, Root: root, Args: r.d.Vars, Context: ctx})
 		}
 	})
 	if panicked {
